@@ -76,6 +76,15 @@ def build(r, kind):
             # the conversion schema itself may carry annotations (e.g. copied verbatim from the document)
             conv_schema[r.choice(["description", "title"])] = "annotated conversion schema"
         settings = {"conversions": [{"schema": conv_schema, "type": REPL, "impls": ["Display"]}]}
+        if r.random() < 0.6:
+            # a second conversion schema mapped to the SAME target type (two spellings of one concept), before or after
+            second = {"type": "string", "format": "second-spelling"}
+            user["properties"]["second"] = dict(second)
+            user["properties"]["seconds"] = {"type": "array", "items": dict(second, description="annotated")}
+            user["required"] += ["second"]
+            extra = {"schema": second, "type": REPL, "impls": ["Display"]}
+            settings["conversions"] = [extra] + settings["conversions"] if r.random() < 0.5 else settings["conversions"] + [extra]
+            info["second_conversion"] = True
         info.update(conv=cs, affected=["User", "Choice", "Alias"])
         return {"definitions": defs}, settings, info
     target = copy.deepcopy(r.choice(TARGETS))
@@ -152,7 +161,7 @@ def syntactic(res, settings, info, rep, case):
             n += 1
             if REPL not in ufields.get(fld, ""):
                 cause = None
-                cs_ = ((settings.get("conversions") or [{}])[0].get("schema") or {}) if kind == "convert" else {}
+                cs_ = (info.get("conv") or {}) if kind == "convert" else {}
                 ext_obj = cs_.get("type") == "object" and len(cs_.get("properties") or {}) == 1 and \
                     cs_.get("required") == list(cs_.get("properties") or {}) and cs_.get("additionalProperties") is not False
                 ext_str = cs_.get("type") == "string" and isinstance(cs_.get("enum"), list)
@@ -163,6 +172,11 @@ def syntactic(res, settings, info, rep, case):
                     if it_ and it_["kind"] == "enum":
                         cause = "single_member_union_read_as_external_variant"
                 viol("use_site_not_substituted", "User." + fld, {"field": fld, "type": ufields.get(fld)}, cause=cause)
+        if info.get("second_conversion"):
+            for fld in ("second", "seconds"):
+                n += 1
+                if REPL not in ufields.get(fld, ""):
+                    viol("use_site_not_substituted", "User." + fld, {"field": fld, "type": ufields.get(fld), "conversion": "second"})
         choice = items.get(("", "Choice")) or {}
         for v in choice.get("variants") or []:
             if v["ident"] in ("Item", "Struct"):
